@@ -782,3 +782,47 @@ func handedOffRelease(v ssa.Value) (lockOp, bool) {
 	held.acquire = false
 	return held, true
 }
+
+// sharedScratchWrites: appending to (or storing through) a slice that is kept in a field of an
+// object shared between goroutines writes the shared backing array.  Where the object has a
+// mutex, such a write needs it held exclusively - a read lock is shared, so two readers that both
+// build "their" list in the same scratch space overwrite each other's entries.
+func (c *Ctx) sharedScratchWrites(typ, mutex string) {
+	n := 0
+	for _, fn := range c.libFuncsAll() {
+		if !strings.HasPrefix(fnKey(topOf(fn)), typ+".") {
+			continue
+		}
+		var lf *lockFlow
+		for _, b := range fn.Blocks {
+			for _, ins := range b.Instrs {
+				call, ok := ins.(*ssa.Call)
+				if !ok || callee(call) != "builtin:append" {
+					continue
+				}
+				// the slice appended to derives from a field of the receiver
+				target := call.Call.Args[0]
+				field := ""
+				for _, l := range leaves(stripSlices(target)) {
+					l = stripSlices(l)
+					if u, ok := l.(*ssa.UnOp); ok && u.Op == token.MUL {
+						if fa, ok := u.X.(*ssa.FieldAddr); ok && strings.HasPrefix(fieldOf(fa), typ+".") {
+							field = fieldOf(fa)
+						}
+					}
+				}
+				if field == "" {
+					continue
+				}
+				n++
+				if lf == nil {
+					lf = analyseLocks(fn)
+				}
+				held := lf.must[ins]
+				c.verdict(holds(held, "."+mutex, true), fmt.Sprintf("%s:append-to-%s", fnKey(fn), field), ins.Pos(), "the shared slice is appended to with the mutex held exclusively",
+					fmt.Sprintf("append writes into the backing array of %s, shared by all users of the object, without holding %s exclusively (held: %s): concurrent callers overwrite each other's entries", field, mutex, held))
+			}
+		}
+	}
+	c.ok(typ+":shared-scratch", 0, "%d append(s) to slices kept in %s fields, all under the exclusive lock", n, typ)
+}
